@@ -103,14 +103,19 @@ def doneLine (st : State) (d : Done) : String :=
     | none => s!"delete ok {rev} -"
   | k, r => writeLine (verbOf k) r
 
-/-- after an action on client `id`: where is it now? -/
+/-- after an action on client `id`: where is it now? (a request whose `Deal` was refused — the sequencer's window is full,
+KB.Sys `G.refuse` — has returned without a revision: it is the newest entry of `refused`; the harness cannot get there,
+100000 requests in flight, so these lines are never compared) -/
 def report (st : State) (id : Nat) (cid : String) (nDoneBefore : Nat) : String :=
   match st.g.client id with
   | some c => s!"at {cid} {(gateOf c).getD "?"}"
   | none =>
     match (st.g.done.drop nDoneBefore).find? (·.id == id) with
     | some d => s!"done {cid} {doneLine st d}"
-    | none => s!"step {cid} no-such-client"
+    | none =>
+      match st.g.refused.getLast? with
+      | some d => if d.id == id then s!"done {cid} {doneLine st d}" else s!"step {cid} no-such-client"
+      | none => s!"step {cid} no-such-client"
 
 def parseReq (toks : List String) : Option ReqKind :=
   match toks with
@@ -316,7 +321,10 @@ def stepWrite (st : State) (verb : String) (pos : List String) (opts : List (Str
     let st := runSeq { st with g := g, nextId := id + 1 } id 16 (parseFaults opts)
     match (st.g.done.drop n).find? (·.id == id) with
     | some d => (st, doneLine st d)
-    | none => (st, s!"{verb} stuck")
+    | none =>
+      match st.g.refused.getLast? with
+      | some d => if d.id == id then (st, doneLine st d) else (st, s!"{verb} stuck")
+      | none => (st, s!"{verb} stuck")
 
 def step (st : State) (toks : List String) : State × String :=
   let (pos, opts) := parseOpts toks
@@ -341,8 +349,10 @@ def step (st : State) (toks : List String) : State × String :=
       match g.retryPc with
       | some _ => ({ st with g := g, rStage := 2 }, "at R commit")
       | none =>
+        -- (`Deal` refused - window full: `retry()` ends as after a failed read, the head stays; not reachable by the harness)
+        let lbl := if st.g.windowFull && g.retryQ.length == st.g.retryQ.length then "failed_get" else "unnecessary"
         let g := seqAll g (g.dealt - g.committed + 1)
-        ({ st with g := g, rStage := 0 }, "done R retry unnecessary")
+        ({ st with g := g, rStage := 0 }, s!"done R retry {lbl}")
     else if st.rStage == 2 then
       let f := match opt opts "f" with
         | some x => parseFault x
